@@ -497,3 +497,18 @@ impl<T: FloatT> ExponentialCone<T> {
 pub fn verif_wright_omega<T: FloatT>(z: T) -> T {
     _wright_omega(z)
 }
+// ---------------------------------------------
+// verification hooks (pub wrappers of the crate-private feasibility tests)
+// ---------------------------------------------
+#[cfg(clarabel_verif)]
+impl<T> ExponentialCone<T>
+where
+    T: FloatT,
+{
+    pub fn verif_c15_is_primal_feasible(&self, s: &[T]) -> bool {
+        NonsymmetricCone::is_primal_feasible(self, s)
+    }
+    pub fn verif_c15_is_dual_feasible(&self, z: &[T]) -> bool {
+        NonsymmetricCone::is_dual_feasible(self, z)
+    }
+}
